@@ -7,9 +7,10 @@ Local Open Scope N_scope.
 Definition in_ranges (rs : list (N * N)) (c : N) : bool :=
   existsb (fun p => (fst p <=? c) && (c <=? snd p)) rs.
 
-(** [enc]: 0 = UTF-8, 1 = UTF-16LE, 2 = UTF-16BE, 3 = ISO-8859-1 (host is little endian) *)
+(** [enc]: 0 = UTF-8, 1 = UTF-16LE, 2 = UTF-16BE, 3 = ISO-8859-1, 4 = UCS-4LE, 5 = UCS-4BE (host is little endian) *)
 Definition xc_of (enc : N) : xcoder :=
-  if enc =? 0 then xc_utf8 else if enc =? 1 then xc_utf16 false else if enc =? 2 then xc_utf16 true else xc_latin1.
+  if enc =? 0 then xc_utf8 else if enc =? 1 then xc_utf16 false else if enc =? 2 then xc_utf16 true
+  else if enc =? 4 then xc_ucs4 false else if enc =? 5 then xc_ucs4 true else xc_latin1.
 Definition step_of (enc : N) : list N -> dres :=
   if enc =? 0 then step_utf8 else if enc =? 1 then step_utf16 false else if enc =? 2 then step_utf16 true else step_latin1.
 
@@ -18,7 +19,8 @@ Definition mk_cfg (enc : N) (v11 : bool) (cb rb lw : nat) (fill safe : bool) : c
   mkCfg (xc_of enc) cb rb lw fill safe v11
         (in_ranges (if v11 then name_ranges_11 else name_ranges_10))
         (in_ranges (if v11 then firstname_ranges_11 else firstname_ranges_10))
-        (in_ranges (if v11 then ws_ranges_11 else ws_ranges_10)).
+        (in_ranges (if v11 then ws_ranges_11 else ws_ranges_10))
+        (in_ranges (if v11 then ncname_ranges_11 else ncname_ranges_10)).
 
 (** the configuration of the real reader: sizes from XMLReader.hpp *)
 Definition real_cfg (enc : N) (v11 : bool) (lw : nat) (fill safe : bool) : cfg :=
